@@ -9,7 +9,7 @@ TRUSTED_BASE = [
     'TermId nodes are represented by their (prefix,id) key (justified by C04)',
 ]
 ASSUMPTIONS = ['edge lists are acyclic and non-empty; owl:Thing is not an input term']
-THEOREM = 'C02_nodes_spec / C02_root_spec / C02_edge_set_invariance (+ C01 query specs)'
+THEOREM = 'C02_nodes / C02_root / C02_root_queries / C02_edge_set_only (+ C01_queries_are_closure)'
 FACTORIES = ['idx', 'inc', 'bld']
 
 
